@@ -601,6 +601,13 @@ def step (cfg : Cfg) (s : State) : Op → State × Int
       let s3 := (run cfg s2.fuel s2 (.free n)).1
       ({ s3 with nullCtx := none }, 0)
 
+/-- `talloc_move(new_parent, &slot)`: `talloc_steal` of what the caller's variable points to; the
+variable is set to NULL if and only if the move worked.  Result: state, returned pointer, value
+of the caller's variable afterwards. -/
+def moveOp (cfg : Cfg) (s : State) (newp : Option Id) (slot : Id) : State × Option Id × Option Id :=
+  let r := step cfg s (.steal newp slot)
+  if r.2 = 0 then (r.1, some slot, none) else (r.1, none, some slot)
+
 def runOps (cfg : Cfg) (s : State) : List Op → State
   | [] => s
   | op :: ops => runOps cfg (step cfg s op).1 ops
